@@ -37,7 +37,7 @@ class LDict(dict):
     def __init__(self, *a):
         dict.__init__(self, *a); self.S = sched.S
     def __setitem__(self, k, v):
-        self.S.effect('tset', k, v); dict.__setitem__(self, k, v)
+        self.S.effect('tset', k); dict.__setitem__(self, k, v)
     def __getitem__(self, k):
         try:
             v = dict.__getitem__(self, k)
@@ -144,6 +144,25 @@ def other_xml(mid):
     a = ' message-id="%s"' % mid if mid is not None else ''
     return '<frob xmlns="urn:example:x"%s/>' % a
 
+class Req:
+    """What the harness keeps of a request: no strong reference to the RPC object (an application may drop its handle)."""
+    def __init__(self, key, rpc):
+        import weakref
+        self.key, self.id, self._event = key, rpc.id, rpc._event
+        self._ref = weakref.ref(rpc)
+        self._final = None
+    def done(self, rpc):
+        """called just before the harness drops its handle: remember what the request held"""
+        self._final = (rpc.reply, rpc.error)
+    @property
+    def reply(self):
+        r = self._ref()
+        return r.reply if r is not None else (self._final[0] if self._final else None)
+    @property
+    def error(self):
+        r = self._ref()
+        return r.error if r is not None else (self._final[1] if self._final else None)
+
 class Scenario:
     """spec = dict(profile=<device name>, clients=[[op,...],...], server=[action,...], eager=bool)
     client op: ('rpc', sync) | ('take', block)
@@ -173,6 +192,16 @@ class Scenario:
         ses.add_listener(NotificationHandler(ses._notification_q))
         self.ses, self.sock = ses, sock
         self.qualify = bool(dh.perform_qualify_check())
+        if spec.get('app'):
+            from ncclient.transport.session import SessionListener
+            class AppListener(SessionListener):
+                """An application listener using the documented API from inside its callbacks."""
+                def callback(inner, root, raw):
+                    ses.get_listener_instance(AppListener)
+                def errback(inner, err):
+                    ses.remove_listener(inner)
+            for _ in range(2):
+                ses.add_listener(AppListener())
         real_run = ses.run
         def wrun():
             try:
@@ -205,21 +234,27 @@ class Scenario:
             def ops_loop():
                 for oi, op in enumerate(ops):
                     key = (ci, oi)
-                    if op[0] == 'rpc':
-                        sync = op[1]
+                    if op[0] in ('rpc', 'rpc_ff'):
+                        sync = op[1] if op[0] == 'rpc' else False
                         try:
                             rpc = Get(ses, dh, async_mode=not sync, timeout=5, raise_mode=RaiseMode.NONE)
                         except Exception as e:
                             outcomes[key] = ('exc-init', type(e).__name__); continue
-                        rpcs.append((key, rpc))
+                        rq = Req(key, rpc)
+                        rpcs.append((key, rq))
                         try:
                             r = rpc.request()
+                            if op[0] == 'rpc_ff':
+                                del r, rpc; continue              # fire and forget: the application drops its handle
                             if not sync:
                                 pending_async.append((key, rpc)); continue
                             m = re.search(r'message-id="([^"]+)"', rpc.reply.xml)
                             outcomes[key] = ('reply', m.group(1) if m else None, rpc.id)
                         except Exception as e:
                             outcomes[key] = ('exc', type(e).__name__)
+                        if rpc is not None:
+                            rq.done(rpc)
+                        r = rpc = None                            # a completed / timed-out call leaves no handle behind
                     elif op[0] == 'await_disc':
                         S.point('await', enabled=lambda: not ses._connected)
                     elif op[0] == 'close':
@@ -231,20 +266,29 @@ class Scenario:
         def server():
             for act in spec['server']:
                 k = act[0]
-                if k in ('reply', 'dup') or (k == 'other' and act[1] is not None):
+                if k in ('reply', 'dup', 'partial') or (k == 'other' and act[1] is not None):
                     idx = act[1]
                     S.point('srv', enabled=lambda idx=idx: idx < len(received()))
                     if idx >= len(received()):
                         return                      # abandoned at the end of the run
                     mid = received()[idx].decode()
                     x = reply_xml(mid) if k != 'other' else other_xml(mid)
+                    if k == 'partial':
+                        # the beginning of a reply with non-ASCII text, cut inside a multi-byte character; what follows
+                        # in the script (eof / err) loses the connection inside this message
+                        full = ('<rpc-reply xmlns="%s" message-id="%s"><data>Z\u00fcrich \u2013 caf\u00e9 \U0001F600</data></rpc-reply>' % (BASE, mid)).encode()
+                        cut = full.index('\u00fc'.encode()) + 1 if act[2] == 0 else (full.index('\U0001F600'.encode()) + act[2])
+                        body = full[:cut]
+                        sock.inb.append((b'\n#%d\n' % len(full) + body) if base11 else body)
+                        S.effect('srv', act); continue
                 elif k == 'wait_all':
-                    nreq = sum(1 for ops in spec['clients'] for op in ops if op[0] == 'rpc')
+                    nreq = sum(1 for ops in spec['clients'] for op in ops if op[0] in ('rpc', 'rpc_ff'))
                     S.point('srv', enabled=lambda: len(received()) >= nreq); continue
                 else:
                     # the server speaks only after it has received a request (then the reply listener exists), except to close
-                    S.point('srv', enabled=(None if k in ('eof', 'err') else (lambda: len(received()) >= 1)))
-                    if k not in ('eof', 'err') and len(received()) < 1:
+                    free = k in ('eof', 'err', 'notif')        # a notification needs no reply listener
+                    S.point('srv', enabled=(None if free else (lambda: len(received()) >= 1)))
+                    if not free and len(received()) < 1:
                         return
                     x = {'reply_noid': reply_xml(None), 'reply_unknown': reply_xml(UNKNOWN_ID),
                          'notif': notif_xml(act[1]) if k == 'notif' else None, 'other': other_xml(None)}.get(k, '')
@@ -309,14 +353,14 @@ class Scenario:
             m = re.search(r'<ev>n(\d+)</ev>', raw)
             return int(m.group(1)) if m else 0
         def rid_of_event(ev):
-            for rpc in reg:
-                if getattr(rpc, '_event', None) is ev:
-                    return rid_of_rpc[id(rpc)]
+            for _, rq in self.rpcs:
+                if rq._event is ev:
+                    return rid_of_id.get(rq.id)
             return None
         for e in effs:
             th, k = e[0], e[1]
             if k == 'tset':
-                rid = len(reg); reg.append(e[3]); rid_of_rpc[id(e[3])] = rid; rid_of_id[e[2]] = rid; cur[th] = rid
+                rid = len(reg); reg.append(e[2]); rid_of_id[e[2]] = rid; cur[th] = rid
                 labels.append([1, rid, 100 + rid])
             elif k == 'chk':
                 labels.append([2, cur.get(th, 99), 1 if e[2] else 0])
@@ -377,7 +421,7 @@ class Scenario:
                 if not explained and not client_closed:
                     labels.append([21, code])         # the exception came out of parser.parse (framing / decoding)
                 labels.append([19, code])
-        self.rid_of_rpc, self.reg = rid_of_rpc, reg
+        self.rid_of_id, self.reg = rid_of_id, reg
         return labels
     @staticmethod
     def _parses(raw):
